@@ -55,12 +55,36 @@ Qed.
 Lemma cfg_ok_inv c :
   cfg_ok c = true ->
   c_seed_mode c = SeedByMapIndex /\ c_filter_listed c = true /\
-  c_loop c = [LSave; LPrint true] /\ c_append c = true /\ c_reseed_each c = true.
+  c_loop c = [LSave; LPrint true] /\ c_append c = true /\ c_reseed_each c = true /\
+  c_norm c <> NoStrip.
 Proof.
   unfold cfg_ok. intros H.
   repeat (apply andb_true_iff in H; destruct H as [H ?]).
   destruct (c_seed_mode c); [|discriminate].
   repeat split; auto using loops_eqb_eq.
+  intros E. rewrite E in *. discriminate.
+Qed.
+
+(* ids that survive the normalisation of manifest lines are recognised as listed *)
+Lemma listed_ids_in_nonneg c m u :
+  c_norm c <> NoStrip -> 0 <= u -> In u m -> In u (listed_ids c m).
+Proof.
+  unfold listed_ids. intros N P I. destruct (c_norm c); [| exact I | congruence].
+  rewrite <- (Z.abs_eq u P). apply (in_map strip_id). exact I.
+Qed.
+
+Lemma listed_ids_in c es m u :
+  c_norm c <> NoStrip -> ids_stable c es -> In u (map fst es) -> In u m -> In u (listed_ids c m).
+Proof.
+  unfold listed_ids, ids_stable. intros N S Iu I. destruct (c_norm c); [| exact I | congruence].
+  rewrite <- (Z.abs_eq u (S u Iu)). apply (in_map strip_id). exact I.
+Qed.
+
+Lemma listed_ids_id c es m :
+  c_norm c <> NoStrip -> ids_stable c es -> (forall u, In u m -> In u (map fst es)) -> listed_ids c m = m.
+Proof.
+  unfold listed_ids, ids_stable. intros N S H. destruct (c_norm c); [| reflexivity | congruence].
+  rewrite <- (map_id m) at 2. apply map_ext_in. intros u I. apply Z.abs_eq. apply S. apply H. exact I.
 Qed.
 
 (* ------------------------------------------------------------ the map file *)
@@ -98,13 +122,13 @@ Qed.
 
 Lemma work_utts c es listed :
   map i_utt (work c es listed)
-  = if c_filter_listed c then filter (fun u => negb (memz u listed)) (map fst es) else map fst es.
+  = if c_filter_listed c then filter (fun u => negb (memz u (listed_ids c listed))) (map fst es) else map fst es.
 Proof.
   unfold work.
   assert (E : map i_utt (if c_filter_listed c
-                         then filter (fun it => negb (memz (i_utt it) listed)) (index_from 0 es)
+                         then filter (fun it => negb (memz (i_utt it) (listed_ids c listed))) (index_from 0 es)
                          else index_from 0 es)
-              = if c_filter_listed c then filter (fun u => negb (memz u listed)) (map fst es) else map fst es).
+              = if c_filter_listed c then filter (fun u => negb (memz u (listed_ids c listed))) (map fst es) else map fst es).
   { destruct (c_filter_listed c).
     - rewrite map_filter_utt, index_from_utts. reflexivity.
     - apply index_from_utts. }
@@ -238,8 +262,11 @@ Variable seed : Z.
 Variable es : list (uid * path).
 Hypothesis c_ok : cfg_ok c = true.
 Hypothesis es_nodup : NoDup (map fst es).
+Hypothesis es_stable : ids_stable c es.
 
 Let good := good_of seed es.
+Lemma norm_ok : c_norm c <> NoStrip.
+Proof. exact (proj2 (proj2 (proj2 (proj2 (proj2 (cfg_ok_inv c c_ok)))))). Qed.
 
 (* what "consistent" means for a directory + manifest *)
 Definition Inv (d : disk) : Prop :=
@@ -366,7 +393,7 @@ Proof.
 Qed.
 
 Lemma todo_ok d :
-  todo c es d = filter (fun it => negb (memz (i_utt it) (d_manifest d))) (index_from 0 es).
+  todo c es d = filter (fun it => negb (memz (i_utt it) (listed_ids c (d_manifest d)))) (index_from 0 es).
 Proof.
   destruct (cfg_ok_inv c c_ok) as [M [F [_ [A _]]]].
   unfold todo, open_manifest, work. rewrite A, F, M. reflexivity.
@@ -374,7 +401,7 @@ Qed.
 
 Lemma delivered_ok wk d : delivered c seed es wk d = map (pure_feat seed) (todo c es d).
 Proof.
-  destruct (cfg_ok_inv c c_ok) as [_ [_ [_ [_ R]]]]. unfold delivered. apply deliver_reseed. exact R.
+  destruct (cfg_ok_inv c c_ok) as [_ [_ [_ [_ [R _]]]]]. unfold delivered. apply deliver_reseed. exact R.
 Qed.
 
 Lemma NoDup_filter {A} (p : A -> bool) (l : list A) : NoDup l -> NoDup (filter p l).
@@ -394,8 +421,10 @@ Proof.
     apply filter_In in I. destruct I as [I NM]. unfold pure_feat in E. inversion E; subst.
     split.
     + apply (good_of_item seed es it es_nodup I).
-    + unfold listed. simpl. rewrite app_nil_r. apply memz_false.
-      destruct (memz (i_utt it) (d_manifest d)); [discriminate | reflexivity].
+    + unfold listed. simpl. rewrite app_nil_r. intros Hin.
+      apply (listed_ids_in c es _ _ norm_ok es_stable) in Hin.
+      * apply memz_spec in Hin. rewrite Hin in NM. discriminate.
+      * rewrite <- (index_from_utts es 0). apply in_map. exact I.
 Qed.
 
 (* ---- crash anywhere in any schedule keeps the directory consistent ---- *)
@@ -509,7 +538,8 @@ Proof.
 Qed.
 
 Lemma delivered_utts wk d :
-  map fst (delivered c seed es wk d) = filter (fun u => negb (memz u (d_manifest d))) (map fst es).
+  map fst (delivered c seed es wk d)
+  = filter (fun u => negb (memz u (listed_ids c (d_manifest d)))) (map fst es).
 Proof.
   rewrite delivered_ok, todo_ok, map_map. simpl. change (fun x : item => i_utt x) with i_utt.
   rewrite map_filter_utt, index_from_utts. reflexivity.
@@ -540,6 +570,8 @@ Proof.
     { intros I. apply in_map_iff in I. destruct I as [uf [Eq I]].
       apply (find_none _ _ Fd) in I. rewrite Eq, Z.eqb_refl in I. discriminate. }
     rewrite boot_ok. simpl. rewrite delivered_utts in NI.
+    rewrite (listed_ids_id c es (d_manifest d) norm_ok es_stable) in NI
+      by (intros u Hu; destruct (I1 u Hu) as [f [Gu _]]; apply (good_of_some_in seed es u f); exact Gu).
     destruct (good v) as [f|] eqn:G.
     + assert (Iv : In v (map fst es)) by (apply (good_of_some_in seed es v f); exact G).
       destruct (memz v (d_manifest d)) eqn:M.
@@ -560,7 +592,10 @@ Proof.
   assert (E : d_manifest (halt k (exec (boot c d) (main4 (delivered c seed es wk d))))
               = d_manifest d ++ map fst (delivered c seed es wk d)).
   { destruct k; simpl; rewrite ?Mb, ?app_nil_r, M; rewrite boot_ok; reflexivity. }
-  rewrite E, delivered_utts. rewrite in_app_iff, filter_In. split.
+  rewrite E, delivered_utts.
+  rewrite (listed_ids_id c es (d_manifest d) norm_ok es_stable)
+    by (intros u Hu; destruct (I1 u Hu) as [f [Gu _]]; apply (good_of_some_in seed es u f); exact Gu).
+  rewrite in_app_iff, filter_In. split.
   - intros [H | [H _]]; [|exact H]. destruct (I1 v H) as [f [G _]].
     apply (good_of_some_in seed es v f). exact G.
   - intros H. destruct (memz v (d_manifest d)) eqn:Mz.
@@ -614,7 +649,7 @@ Qed.
 
 Lemma listed_untouched_l c seed es wk d sched n u :
   c_filter_listed c = true -> c_append c = true ->
-  valid_sched c seed es wk d sched -> In u (d_manifest d) ->
+  valid_sched c seed es wk d sched -> In u (listed_ids c (d_manifest d)) ->
   ~ In u (s_computed (crash_state c d sched n)) /\
   ~ In u (s_saved (crash_state c d sched n)) /\
   file_at (d_files (s_disk (crash_state c d sched n))) u = file_at (d_files d) u.
